@@ -392,6 +392,71 @@ def unhashable_receiver():
     return [e["stored"] for e in got] != [1]
 
 
+# ---- C11 ------------------------------------------------------------------------------------
+def tag_hidden_by_later_annotation():
+    def f(p: "@A"):
+        x: "@A" = 1
+        x: "@B" = 2
+        p: int = 3
+        return x
+
+    bad = False
+    for sel, want in [("f > $v:@A", [("p", 0), ("x", 1)]), ("f > x:@A", [("x", 1)]), ("f > $v:@B", [("x", 2)]), ("f > p:@A", [("p", 0)])]:
+        try:
+            with probing(sel, env={"f": f}, raw=True) as prb:
+                got = prb.kmap(lambda **kw: [(c.names[0], c.values[0]) for c in kw.values()][0]).accum()
+                f(0)
+        except Exception as e:  # noqa
+            got = f"{type(e).__name__}: {e}"
+        if got != want:
+            print(sel, "->", got, "expected", want)
+            bad = True
+    return bad
+
+
+# ---- C17 / C05 ------------------------------------------------------------------------------
+def completion_error_leaves_probe_active():
+    from ptera.overlay import HandlerCollection
+
+    def f(x):
+        a = x + 1
+        return a
+
+    orig = f.__code__
+    seen, done = [], []
+    try:
+        with probing("f > a") as prb:
+            prb["a"].min().subscribe(lambda v: None)  # raises SequenceContainsNoElementsError upon completion
+            prb["a"].subscribe(seen.append, on_completed=lambda: done.append(1))
+    except Exception as e:  # noqa
+        print("with-block left by", type(e).__name__)
+    f(1)
+    print("events after the block:", seen, "second subscriber completed:", done, "original code:", f.__code__ is orig, "handlers:", HandlerCollection.current.get())
+    return seen != [] or done != [1] or f.__code__ is not orig or HandlerCollection.current.get() is not None
+
+
+def deactivation_inside_a_call_is_undone_at_its_exit():
+    """C05 reading of the recorded C09 finding: a probe deactivated WHILE a probed call is running; when that call returns,
+    proceed.__exit__ resets the context variable to the collection of its own entry, which still holds the probe's handler."""
+    from ptera import global_probe
+    from ptera.overlay import HandlerCollection
+
+    def f(x):
+        a = x + 1
+        b = a * 2
+        return b
+
+    first = global_probe("f > a")
+    other = global_probe("f > b")
+    first["a"].subscribe(lambda v: first.deactivate())
+    f(1)
+    other.deactivate()
+    left = HandlerCollection.current.get()
+    print("handlers installed after every probe was deactivated:", None if left is None else len(left.handler_pairs))
+    HandlerCollection.current.set(None)
+    return left is not None
+
+
 if __name__ == "__main__":
     case = sys.argv[1]
     bad = globals()[case]()
